@@ -55,6 +55,11 @@ func runLift3x(a *args) {
 			var ge, gb, gt float64
 			p, msg := safely(func() { ge = o.Score("environmental"); gb = o.Score("base"); gt = o.Score("temporal") })
 			switch prop {
+			case "C09":
+				col.count("realisations scored without panic", 1)
+				if p {
+					col.violate(Violation{Property: prop, Kind: "scoring method panicked on a reachable object", Version: vn, Input: key, Expected: "no panic", Observed: msg})
+				}
 			case "C11":
 				col.count("realisations checked for one-decimal scores in range", 1)
 				checkTenth(col, prop, v, o, "environmental", ge, p, msg, 0)
@@ -166,7 +171,7 @@ func runLift3x(a *args) {
 			}
 		}
 		// (x) no environmental metric defined at all, versus each single explicit copy of a base value / default
-		if prop == "C10" || prop == "C03" {
+		if prop == "C10" || prop == "C03" || prop == "C09" {
 			for k := 0; k < 6*K; k++ {
 				o := randomObj()
 				for _, m := range []string{"CR", "IR", "AR", "MAV", "MAC", "MPR", "MUI", "MS", "MC", "MI", "MA"} {
@@ -183,6 +188,14 @@ func runLift3x(a *args) {
 					o2 := o.Clone()
 					mustSet(o2, m, tb.defaults[m])
 					check(o2, "single explicit default")
+				}
+				// exactly one environmental metric defined, at every value (all the others undefined)
+				for _, m := range []string{"CR", "IR", "AR", "MAV", "MAC", "MPR", "MUI", "MS", "MC", "MI", "MA"} {
+					for _, x := range tb.vals[m][1:] {
+						o2 := o.Clone()
+						mustSet(o2, m, x)
+						check(o2, "exactly one environmental metric defined")
+					}
 				}
 			}
 		}
